@@ -30,11 +30,6 @@ Definition widen32 (b : N) : N :=
             (l + 1023 - 149) * 2 ^ 52 + (m - 2 ^ l) * 2 ^ (52 - l))
     else (e + 1023 - 127) * 2 ^ 52 + m * 2 ^ 29))%N.
 
-(* t.Round(time.Microsecond): halfway values round up *)
-Definition round_us (s : Z) (n : N) : Z * N :=
-  let us := ((n + 500) / 1000)%N in
-  if N.eqb us 1000000 then ((s + 1)%Z, 0%N) else (s, (us * 1000)%N).
-
 Definition item_is_nil (i : item) : bool := match i with INil => true | _ => false end.
 
 (* typed reads of the cbor driver on an observed item (the cases the encoder can produce) *)
@@ -158,3 +153,53 @@ Fixpoint veqb (a b : gv) {struct a} : bool :=
          end) fa fb
   | _, _ => false
   end.
+
+(* ---- two concrete drivers meeting the interface [wire_ok] (proved in C01/Proofs.v) ---- *)
+
+(* the identity wire: every item comes back as written *)
+Definition id_wire : wire := {|
+  wn := fun i => i;
+  wnk := fun i => i;
+  is_nil := item_is_nil;
+  rd_bool := rd_bool cbor_rd;
+  rd_int := rd_int cbor_rd;
+  rd_uint := rd_uint cbor_rd;
+  rd_f32 := rd_f32 cbor_rd;
+  rd_f64 := fun i => match i with IF64 b => Ok b | _ => Err EBadDesc end;
+  rd_str := rd_str cbor_rd;
+  rd_bytes := rd_bytes cbor_rd;
+  rd_time := rd_time cbor_rd;
+  fn32 := fun b => b;
+  fn64 := fun b => b;
+  tnorm := fun s n => (s, n);
+  leaf_ok := fun _ => true
+|}.
+
+(* a cbor-shaped wire: non-negative integers come back unsigned (major type 0), the zero
+   time comes back as nil, other times rounded to the microsecond; containers element-wise *)
+Fixpoint cb_wn (i : item) : item :=
+  match i with
+  | IInt z => if (0 <=? z)%Z then IUint (Z.to_N z) else i
+  | ITime s n => if is_time_zero s n then INil else let sn := round_us s n in ITime (fst sn) (snd sn)
+  | IArr l => IArr (map cb_wn l)
+  | IMap l => IMap (map (fun kv => (cb_wn (fst kv), cb_wn (snd kv))) l)
+  | _ => i
+  end.
+
+Definition cb_wire : wire := {|
+  wn := cb_wn;
+  wnk := cb_wn;
+  is_nil := item_is_nil;
+  rd_bool := rd_bool cbor_rd;
+  rd_int := rd_int cbor_rd;
+  rd_uint := rd_uint cbor_rd;
+  rd_f32 := rd_f32 cbor_rd;
+  rd_f64 := rd_f64 cbor_rd;
+  rd_str := rd_str cbor_rd;
+  rd_bytes := rd_bytes cbor_rd;
+  rd_time := rd_time cbor_rd;
+  fn32 := fun b => b;
+  fn64 := fun b => b;
+  tnorm := round_us;
+  leaf_ok := fun _ => true
+|}.
